@@ -74,9 +74,26 @@ def sample_view(case):
     }
 
 
+def _prune_short_lines(ops, thr):
+    start, segs = ops
+    out, cur = [], start
+    for op, pts in segs:
+        if op == "line" and abs(pts[0][0] - cur[0]) <= thr and abs(pts[0][1] - cur[1]) <= thr:
+            continue
+        out.append((op, pts))
+        cur = pts[-1]
+    return (start, out)
+
+
 def ops_match(a, b, tol):
-    (sa, segsa), (sb, segsb) = a, b
     eps = 0 if (tol is None or tol >= 0.5) else tol + 1e-3
+    if eps:
+        # tolerance mode: a coordinate may move by tol, so which lines are zero-length is not determined; compare modulo
+        # line segments shorter than 2*tol and allow the accumulated slack on the remaining points
+        thr = 2 * tol + 0.01
+        a, b = _prune_short_lines(a, thr), _prune_short_lines(b, thr)
+        eps += thr
+    (sa, segsa), (sb, segsb) = a, b
 
     def peq(p, q, slack=0):
         if eps == 0 and slack == 0:
